@@ -117,7 +117,7 @@ def run(ctx, model_ok):
             if changed_words and len(sp2[1]) == len(params):
                 j = changed_words[0]
                 for k, (p0, p1) in enumerate(zip(params, sp2[1])):
-                    if k != j and p0 != p1 and numeric(p0) is not None:
+                    if k != j and p0 != p1 and numeric(p0) is not None and numeric(p1) is not None:
                         ctx.failing.append({'input': {'key': key, 'first_a': first, 'first_b': metas[i][1], 'last': metas[a][2]},
                                             'expected': f'only parameter {j} may change when START word {j} changes',
                                             'actual': [bt, t], 'why': f'numeric parameter {k} changed with START word {j}'})
@@ -127,6 +127,8 @@ def run(ctx, model_ok):
     preqs, pinfo = [], []
     pkeys = keys if not ctx.quick() else rng.sample(keys, min(len(keys), 120))
     for key in pkeys:
+        if R.host_enum_words(key):
+            continue            # words converted through the host's own enums: in-domain values are host-specific (C18)
         a1 = dc.in_domain_first(R, key, rng, base=[5001, 5002, 5003, 5004], flags_in_domain=True)
         a2 = dc.in_domain_first(R, key, rng, base=[6001, 6002, 6003, 6004], flags_in_domain=True)
         last = [0, 7, 0, 0]
